@@ -126,12 +126,21 @@ func coreConfig(d *Disk, o CoreOpts) *vault.CoreConfig {
 // BootCore creates, initialises and unseals a Core over the given disk
 // (pass-through mode is expected).
 func BootCore(d *Disk, o CoreOpts) (*CoreH, error) {
+	return BootCoreWith(d, o, nil)
+}
+
+// BootCoreWith is BootCore with a callback that receives the handle as soon
+// as the Core object exists (before init), for monitors.
+func BootCoreWith(d *Disk, o CoreOpts, early func(*CoreH)) (*CoreH, error) {
 	if o.Shares == 0 {
 		o.Shares, o.Thresh = 1, 1
 	}
 	c, err := vault.NewCore(coreConfig(d, o))
 	if err != nil {
 		return nil, fmt.Errorf("NewCore: %w", err)
+	}
+	if early != nil {
+		early(&CoreH{Core: c, Disk: d, Opts: o})
 	}
 	ctx := namespace.RootContext(context.Background())
 	res, err := c.Initialize(ctx, &vault.InitParams{
@@ -142,6 +151,9 @@ func BootCore(d *Disk, o CoreOpts) (*CoreH, error) {
 		return nil, fmt.Errorf("Initialize: %w", err)
 	}
 	h := &CoreH{Core: c, Disk: d, Keys: res.SecretShares, Root: res.RootToken, Opts: o}
+	if early != nil {
+		early(h)
+	}
 	if err := h.Unseal(); err != nil {
 		return nil, err
 	}
